@@ -2,7 +2,7 @@ CONSTANTS
   Seeds = {1, 2}
   DTs = {"f", "i"}
   Fixes = {}
-  Fams = {"join", "select", "arith", "order", "shape", "inplace"}
+  Fams = {"compare", "join", "select", "arith", "order", "shape", "inplace"}
 INIT Init
 NEXT Next
 INVARIANT Export
